@@ -4,7 +4,7 @@
    are about control flow only.  Sign, scaling and pulse recovery need arithmetic laws; those are
    Section hypotheses of the later Sections, each instantiated with exact rationals below. *)
 From AG Require Import Base.Prelude Base.Res Signal.Greedy.
-From Coq Require Import Floats.
+From Coq Require Import Floats QArith Qcanon.
 
 Local Open Scope nat_scope.
 
@@ -23,33 +23,11 @@ Qed.
 Lemma repeat_snoc {A} (a : A) k l : repeat a k ++ a :: l = a :: repeat a k ++ l.
 Proof. induction k as [|k IH]; cbn; [reflexivity|]. rewrite IH. reflexivity. Qed.
 
-Section GreedyProofs.
+Section Slices.
 Variable F : Type.
-Variables zero szero inf : F.
-Variables add sub mul div fmin : F -> F -> F.
-Variables neg nonneg : F -> bool.
-Variable ltb : F -> F -> bool.
-
 Notation drop_exact := (drop_exact F).
 Notation take_exact := (take_exact F).
 Notation slice := (slice F).
-Notation last_nonneg := (last_nonneg F nonneg).
-Notation zip_div := (zip_div F div).
-Notation reduce_min := (reduce_min F fmin).
-Notation sub_scaled := (sub_scaled F sub mul).
-Notation advance := (advance F zero).
-Notation finish := (finish F zero).
-Notation fire := (fire F sub mul div fmin).
-Notation greedy_loop := (greedy_loop F zero sub mul div fmin nonneg).
-Notation naive_loop := (naive_loop F zero sub mul div fmin nonneg).
-Notation sumsq := (sumsq F szero add mul).
-Notation nn_with := (nn_with F szero add mul neg).
-Notation nn_greedy := (nn_greedy F zero szero add sub mul div fmin neg nonneg).
-Notation nn_naive := (nn_naive F zero szero add sub mul div fmin neg nonneg).
-Notation ls_step := (ls_step F ltb).
-Notation ls_inner := (ls_inner F ltb).
-Notation ls_outer := (ls_outer F ltb).
-Notation ls_deconv := (ls_deconv F inf ltb).
 
 (* ---------- slices ---------- *)
 Lemma drop_exact_some n l r : drop_exact n l = Some r <-> n <= length l /\ r = skipn n l.
@@ -99,6 +77,41 @@ Proof.
   intros H. apply slice_some_iff in H. destruct H as [H ->].
   rewrite firstn_length, skipn_length. lia.
 Qed.
+
+End Slices.
+Arguments drop_exact_some {F}.
+Arguments take_exact_some {F}.
+Arguments slice_some_iff {F}.
+Arguments slice_none_iff {F}.
+Arguments slice_length {F}.
+
+Section GreedyProofs.
+Variable F : Type.
+Variables zero szero inf : F.
+Variables add sub mul div fmin : F -> F -> F.
+Variables neg nonneg : F -> bool.
+Variable ltb : F -> F -> bool.
+
+Notation drop_exact := (drop_exact F).
+Notation take_exact := (take_exact F).
+Notation slice := (slice F).
+Notation last_nonneg := (last_nonneg F nonneg).
+Notation zip_div := (zip_div F div).
+Notation reduce_min := (reduce_min F fmin).
+Notation sub_scaled := (sub_scaled F sub mul).
+Notation advance := (advance F zero).
+Notation finish := (finish F zero).
+Notation fire := (fire F sub mul div fmin).
+Notation greedy_loop := (greedy_loop F zero sub mul div fmin nonneg).
+Notation naive_loop := (naive_loop F zero sub mul div fmin nonneg).
+Notation sumsq := (sumsq F szero add mul).
+Notation nn_with := (nn_with F szero add mul neg).
+Notation nn_greedy := (nn_greedy F zero szero add sub mul div fmin neg nonneg).
+Notation nn_naive := (nn_naive F zero szero add sub mul div fmin neg nonneg).
+Notation ls_step := (ls_step F ltb).
+Notation ls_inner := (ls_inner F ltb).
+Notation ls_outer := (ls_outer F ltb).
+Notation ls_deconv := (ls_deconv F inf ltb).
 
 (* ---------- the window search ---------- *)
 (* sample p of l exists and is non-negative *)
@@ -885,7 +898,64 @@ Proof.
 Qed.
 End Pulse.
 
+
+(* ---- (6, continued) the least-squares selection returns the exact recovery ---- *)
+Section PulseLs.
+Variables signal response exact : list F.
+Variable la0 : nat.
+Variables offs las : list nat.
+(* the first grid point (offset 0, first look-ahead) recovers the pulse with residual szero *)
+Hypothesis first_exact : nn_greedy signal response 0 la0 = Ok (szero, exact).
+(* table facts: every window of the grid is negative and non-empty *)
+Hypothesis windows : forall off la, In off (0 :: offs) -> In la (la0 :: las) ->
+  exists rwin, slice response off la = Some rwin /\ forallb neg rwin = true /\ 1 <= la.
+(* order facts: a sum of squares is never < szero; szero < inf *)
+Hypothesis sumsq_not_lt : forall l, ltb (sumsq l) szero = false.
+Hypothesis szero_lt_inf : ltb szero inf = true.
+
+Lemma nn_greedy_residual_is_sumsq sg off la r inp :
+  nn_greedy sg response off la = Ok (r, inp) -> exists residual, r = sumsq residual.
+Proof.
+  unfold Greedy.nn_greedy, Greedy.nn_with.
+  destruct (unwrap (slice response off la)) as [rwin| |]; cbn [bind]; try discriminate.
+  unfold assert_. destruct (forallb neg rwin); [|discriminate].
+  destruct (greedy_loop response rwin off la (S (length sg)) sg [] []) as [[residual input]| |];
+    cbn [bind]; try discriminate.
+  intros [= <- _]. eauto.
+Qed.
+
+Lemma ls_flat_keeps : forall g,
+  (forall off la, In (off, la) g -> In off (0 :: offs) /\ In la (la0 :: las)) ->
+  ls_flat nn_greedy signal response (szero, exact) g = Ok (szero, exact).
+Proof.
+  induction g as [|[o l] t IH]; intros Hg; [reflexivity|]. cbn [ls_flat].
+  destruct (Hg o l (or_introl eq_refl)) as [Ho Hl].
+  destruct (windows o l Ho Hl) as [rwin [Hs [Hn Hla]]].
+  destruct (nn_greedy_total_sec signal response o l rwin Hs Hn Hla) as [r [inp [Hnn _]]].
+  unfold Greedy.ls_step. rewrite Hnn. cbn [bind fst].
+  destruct (nn_greedy_residual_is_sumsq _ _ _ _ _ Hnn) as [residual ->].
+  rewrite sumsq_not_lt. apply IH. intros off la Hin. apply Hg. right. exact Hin.
+Qed.
+
+Theorem isolated_pulse_ls_sec : ls_deconv nn_greedy signal response (0 :: offs) (la0 :: las) = Ok exact.
+Proof.
+  unfold Greedy.ls_deconv. rewrite ls_outer_flat.
+  cbn [grid flat_map map app ls_flat]. unfold Greedy.ls_step at 1. rewrite first_exact. cbn [bind fst].
+  rewrite szero_lt_inf.
+  change (map (pair 0) las ++ flat_map (fun o => map (pair o) (la0 :: las)) offs)
+    with (map (pair 0) las ++ grid offs (la0 :: las)).
+  rewrite ls_flat_keeps; [reflexivity|].
+  intros off la Hin. apply in_app_or in Hin. destruct Hin as [Hin|Hin].
+  - apply in_map_iff in Hin. destruct Hin as [l [[= <- <-] Hl]]. split; [left; reflexivity | right; exact Hl].
+  - change (In (off, la) (grid offs (la0 :: las))) in Hin.
+    apply in_grid in Hin. destruct Hin as [H1 H2]. split; [right; exact H1 | exact H2].
+Qed.
+End PulseLs.
+
 End GreedyProofs.
+
+(* fills Section variables that a lemma does not really use *)
+Ltac dummies z := try exact z; try exact (fun _ _ => true); try exact (fun x _ => x); try exact (fun _ => true).
 
 (* Statements with exactly the parameters they mention (inside the Section `lia` makes every lemma
    depend on all Section variables; the unused ones are instantiated with dummies here). *)
@@ -895,8 +965,7 @@ Lemma greedy_skip_eq_naive_lemma :
   nn_greedy F zero szero add sub mul div fmin neg nonneg signal response off la =
   nn_naive F zero szero add sub mul div fmin neg nonneg signal response off la.
 Proof.
-  intros. exact (greedy_skip_eq_naive_sec F zero szero zero add sub mul div fmin neg nonneg (fun _ _ => true)
-                   signal response off la).
+  intros. unshelve eapply greedy_skip_eq_naive_sec; dummies zero.
 Qed.
 Lemma deconv_eq_plain_lemma :
   forall (F : Type) (zero szero inf : F) (add sub mul div fmin : F -> F -> F) (neg nonneg : F -> bool)
@@ -921,15 +990,15 @@ Lemma deconv_lengths_lemma :
      nn_greedy F zero szero add sub mul div fmin neg nonneg signal response off la =
      Ok (sumsq F szero add mul signal, repeat zero (length signal))).
 Proof.
-  intros. pose (d := fun (_ _ : F) => true).
-  split; [|split; [|split]].
-  - intros k. exact (nn_greedy_not_err_sec F zero szero zero add sub mul div fmin neg nonneg d signal response off la k).
-  - intros r inp. exact (nn_greedy_length_sec F zero szero zero add sub mul div fmin neg nonneg d signal response off la r inp).
+  intros. split; [|split; [|split]].
+  - intros k. unshelve eapply nn_greedy_not_err_sec; dummies zero.
+  - intros r inp. unshelve eapply nn_greedy_length_sec; dummies zero.
   - intros rwin H1 H2 H3.
-    destruct (nn_greedy_total_sec F zero szero zero add sub mul div fmin neg nonneg d signal response off la rwin H1 H2 H3)
-      as [r [inp [H _]]].
-    exists r, inp. exact H.
-  - intros rwin. exact (nn_greedy_short_sec F zero szero zero add sub mul div fmin neg nonneg d signal response off la rwin).
+    assert (H : exists r inp, nn_greedy F zero szero add sub mul div fmin neg nonneg signal response off la = Ok (r, inp)
+                              /\ length inp = length signal)
+      by (unshelve eapply nn_greedy_total_sec; try eassumption; dummies zero).
+    destruct H as [r [inp [H _]]]. exists r, inp. exact H.
+  - intros rwin. unshelve eapply nn_greedy_short_sec; dummies zero.
 Qed.
 
 Lemma ls_deconv_lengths_lemma :
@@ -947,7 +1016,7 @@ Lemma ls_deconv_lengths_lemma :
 Proof.
   intros F zero szero inf add sub mul div fmin neg nonneg ltb signal response offs las out H. split.
   - apply (ls_deconv_length_sec F inf ltb _ signal response); [|exact H].
-    intros off la r inp. apply nn_greedy_length_sec; [exact zero | exact ltb].
+    intros off la r inp. unshelve eapply nn_greedy_length_sec; dummies zero.
   - apply (ls_deconv_empty_sec F inf ltb _ signal response); exact H.
 Qed.
 
@@ -957,3 +1026,179 @@ Lemma length_all_inputs_refuted_lemma :
 Proof. exists [(-0x1p+700)%float]. split; [reflexivity|]. vm_compute. reflexivity. Qed.
 Lemma length_nan_lemma : pad_deconv_f [nan; (-5)%float] (repeat (-1)%float 18) = Ok [].
 Proof. vm_compute. reflexivity. Qed.
+
+Lemma isolated_pulse_lemma :
+  forall (F : Type) (zero szero : F) (add sub mul div fmin : F -> F -> F) (neg nonneg : F -> bool)
+         (a : F) (response : list F) (la : nat),
+  1 <= la -> la <= length response -> forallb neg (firstn la response) = true ->
+  nonneg zero = true ->
+  (forall r, neg r = true -> nonneg (mul a r) = false) ->
+  (forall r, neg r = true -> div (mul a r) r = a) ->
+  fmin a a = a ->
+  (forall r, sub (mul a r) (mul a r) = zero) ->
+  add szero (mul zero zero) = szero ->
+  forall k m t, la <= m -> t = 0 \/ length response <= m ->
+  let P := map (mul a) (firstn m response) ++ repeat zero t in
+  nn_greedy F zero szero add sub mul div fmin neg nonneg (repeat zero k ++ P) response 0 la =
+  Ok (szero, repeat zero k ++ a :: repeat zero (length P - 1)).
+Proof.
+  intros. rewrite greedy_skip_eq_naive_lemma.
+  unshelve eapply isolated_pulse_naive; try assumption; dummies zero.
+Qed.
+
+Lemma isolated_pulse_ls_lemma :
+  forall (F : Type) (zero szero inf : F) (add sub mul div fmin : F -> F -> F) (neg nonneg : F -> bool)
+         (ltb : F -> F -> bool) (signal response exact : list F) (la0 : nat) (offs las : list nat),
+  nn_greedy F zero szero add sub mul div fmin neg nonneg signal response 0 la0 = Ok (szero, exact) ->
+  (forall off la, In off (0 :: offs) -> In la (la0 :: las) ->
+     exists rwin, slice F response off la = Some rwin /\ forallb neg rwin = true /\ 1 <= la) ->
+  (forall l, ltb (sumsq F szero add mul l) szero = false) ->
+  ltb szero inf = true ->
+  ls_deconv F inf ltb (nn_greedy F zero szero add sub mul div fmin neg nonneg) signal response (0 :: offs) (la0 :: las)
+  = Ok exact.
+Proof. intros. eapply isolated_pulse_ls_sec; eassumption. Qed.
+
+(* ------------------------------------------------------------------------------------------ *)
+(* Exact rationals (Qc: canonical fractions, Leibniz equality): the hypotheses of the Sections Sign,
+   Scale, Pulse and PulseLs are satisfiable, and the theorems hold outright there. *)
+Local Open Scope Qc_scope.
+
+Definition q_dec (a b : Qc) : bool := if Qclt_le_dec a b then true else false.   (* a < b *)
+Definition q_neg (x : Qc) : bool := q_dec x 0.
+Definition q_nonneg (x : Qc) : bool := negb (q_dec x 0).
+Definition q_min (a b : Qc) : Qc := if q_dec b a then b else a.
+Definition nn_greedy_q := nn_greedy Qc 0 0 Qcplus Qcminus Qcmult Qcdiv q_min q_neg q_nonneg.
+
+Lemma q_dec_true a b : q_dec a b = true <-> a < b.
+Proof.
+  unfold q_dec. destruct (Qclt_le_dec a b) as [H|H]; split; auto; try discriminate.
+  intros H'. exfalso. exact (Qcle_not_lt _ _ H H').
+Qed.
+Lemma q_dec_false a b : q_dec a b = false <-> b <= a.
+Proof.
+  unfold q_dec. destruct (Qclt_le_dec a b) as [H|H]; split; auto; try discriminate.
+  intros H'. exfalso. exact (Qcle_not_lt _ _ H' H).
+Qed.
+Lemma qc_neg_opp r : r < 0 -> 0 < - r.
+Proof. intros H. apply Qclt_minus_iff in H. replace (0 + - r) with (- r) in H by ring. exact H. Qed.
+Lemma qc_quot_sign s r : s < 0 -> r < 0 -> 0 <= s / r.
+Proof.
+  intros Hs Hr. apply Qcnot_lt_le. intros Hq.
+  assert (Hr0 : r <> 0) by (apply Qclt_not_eq; exact Hr).
+  assert (H := Qcmult_lt_compat_r (s / r) 0 (- r) (qc_neg_opp _ Hr) Hq).
+  replace (s / r * - r) with (- s) in H by (field; exact Hr0).
+  replace (0 * - r) with 0 in H by ring.
+  apply (Qclt_not_le _ _ H). apply Qclt_le_weak. apply qc_neg_opp. exact Hs.
+Qed.
+Lemma qc_mul_mono_lt m a b : 0 < m -> a < b -> m * a < m * b.
+Proof. intros Hm H. rewrite (Qcmult_comm m a), (Qcmult_comm m b). apply Qcmult_lt_compat_r; assumption. Qed.
+Lemma qc_mul_mono_le m a b : 0 < m -> a <= b -> m * a <= m * b.
+Proof.
+  intros Hm H. rewrite (Qcmult_comm m a), (Qcmult_comm m b).
+  apply Qcmult_le_compat_r; [assumption|apply Qclt_le_weak; assumption].
+Qed.
+Lemma q_dec_scale m a b : 0 < m -> q_dec (m * a) (m * b) = q_dec a b.
+Proof.
+  intros Hm. destruct (q_dec a b) eqn:E.
+  - apply q_dec_true. apply qc_mul_mono_lt; [assumption|]. apply q_dec_true. exact E.
+  - apply q_dec_false. apply qc_mul_mono_le; [assumption|]. apply q_dec_false. exact E.
+Qed.
+Lemma q_min_ge0 a b : 0 <= a -> 0 <= b -> 0 <= q_min a b.
+Proof. intros Ha Hb. unfold q_min. destruct (q_dec b a); assumption. Qed.
+
+(* (4) over Q: every recovered amplitude is >= 0 *)
+Lemma greedy_nonneg_Q_lemma : forall signal response off la r inp,
+  nn_greedy_q signal response off la = Ok (r, inp) -> Forall (fun x => 0 <= x) inp.
+Proof.
+  intros signal response off la r inp.
+  apply (nn_greedy_nonneg_sec Qc 0 0 Qcplus Qcminus Qcmult Qcdiv q_min q_neg q_nonneg (fun x => 0 <= x)).
+  - apply Qcle_refl.
+  - intros s r0 Hs Hr. apply qc_quot_sign.
+    + apply q_dec_true. unfold q_nonneg in Hs. destruct (q_dec s 0); [reflexivity|discriminate].
+    + apply q_dec_true. exact Hr.
+  - apply q_min_ge0.
+Qed.
+
+(* (5) over Q: scaling by any c > 0 (not only powers of two) *)
+Lemma scale_covariant_Q_lemma : forall c : Qc, 0 < c -> forall signal response off la,
+  nn_greedy_q (map (Qcmult c) signal) response off la =
+  res_map (sc_out Qc (Qcmult c) (Qcmult (c * c))) (nn_greedy_q signal response off la).
+Proof.
+  intros c Hc. apply nn_greedy_scale_sec; intros; try ring.
+  - unfold Qcdiv. ring.
+  - unfold q_min. rewrite (q_dec_scale c b a Hc). destruct (q_dec b a); reflexivity.
+  - unfold q_nonneg. replace 0 with (c * 0) at 1 by ring. rewrite (q_dec_scale c x 0 Hc). reflexivity.
+Qed.
+Lemma ls_scale_covariant_Q_lemma : forall c : Qc, 0 < c -> forall signal response offs las,
+  ls_deconv Qc 0 q_dec nn_greedy_q (map (Qcmult c) signal) response offs las =
+  res_map (map (Qcmult c)) (ls_deconv Qc 0 q_dec nn_greedy_q signal response offs las).
+Proof.
+  intros c Hc.
+  assert (Hcc : 0 < c * c) by (replace 0 with (c * 0) by ring; apply qc_mul_mono_lt; assumption).
+  apply ls_deconv_scale_sec with (sc2 := Qcmult (c * c)); intros; try ring.
+  - unfold Qcdiv. ring.
+  - unfold q_min. rewrite (q_dec_scale c b a Hc). destruct (q_dec b a); reflexivity.
+  - unfold q_nonneg. replace 0 with (c * 0) at 1 by ring. rewrite (q_dec_scale c x 0 Hc). reflexivity.
+  - apply q_dec_scale. exact Hcc.
+Qed.
+
+(* (6) over Q: a pulse a * response (a > 0) at k is recovered as exactly a at k and 0 elsewhere, residual 0 *)
+Lemma isolated_pulse_Q_lemma : forall (a : Qc) (response : list Qc) (la : nat),
+  0 < a -> (1 <= la)%nat -> (la <= length response)%nat -> forallb q_neg (firstn la response) = true ->
+  forall k m t, (la <= m)%nat -> t = 0%nat \/ (length response <= m)%nat ->
+  let P := map (Qcmult a) (firstn m response) ++ repeat 0 t in
+  nn_greedy_q (repeat 0 k ++ P) response 0 la = Ok (0, repeat 0 k ++ a :: repeat 0 (length P - 1)).
+Proof.
+  intros a response la Ha H1 H2 H3 k m t H4 H5.
+  apply isolated_pulse_lemma; try assumption.
+  - unfold q_nonneg. replace (q_dec 0 0) with false; [reflexivity|]. symmetry. apply q_dec_false. apply Qcle_refl.
+  - intros r Hr. apply q_dec_true in Hr. unfold q_nonneg.
+    replace (q_dec (a * r) 0) with true; [reflexivity|]. symmetry. apply q_dec_true.
+    replace 0 with (a * 0) by ring. apply qc_mul_mono_lt; assumption.
+  - intros r Hr. apply q_dec_true in Hr. field. apply Qclt_not_eq. exact Hr.
+  - unfold q_min. destruct (q_dec a a); reflexivity.
+  - intros r. ring.
+  - ring.
+Qed.
+Lemma sumsq_Q_ge0 : forall l acc, 0 <= acc -> 0 <= fold_left (fun acc x => acc + x * x) l acc.
+Proof.
+  induction l as [|x t IH]; intros acc Hacc; [assumption|]. cbn [fold_left]. apply IH.
+  replace 0 with (0 + 0) by ring. apply Qcplus_le_compat; [assumption|].
+  destruct (Qclt_le_dec x 0) as [Hx|Hx].
+  - replace (x * x) with ((- x) * (- x)) by ring. replace 0 with (0 * - x) by ring.
+    apply Qcmult_le_compat_r; apply Qclt_le_weak; apply qc_neg_opp; assumption.
+  - replace 0 with (0 * x) by ring. apply Qcmult_le_compat_r; assumption.
+Qed.
+(* the whole wire selection (grid 0..=1 x 3..=12; `inf` is any positive number here) *)
+Lemma isolated_pulse_wire_Q_lemma : forall (a : Qc) (response : list Qc),
+  0 < a -> (13 <= length response)%nat -> forallb q_neg (firstn 13 response) = true ->
+  forall k m t, (3 <= m)%nat -> t = 0%nat \/ (length response <= m)%nat ->
+  let P := map (Qcmult a) (firstn m response) ++ repeat 0 t in
+  ls_deconv Qc 1 q_dec nn_greedy_q (repeat 0 k ++ P) response (range_incl 0 1) (range_incl 3 12) =
+  Ok (repeat 0 k ++ a :: repeat 0 (length P - 1)).
+Proof.
+  intros a response Ha Hlen Hneg k m t Hm Ht P.
+  assert (Hw : forall off la, (off + la <= 13)%nat ->
+            exists rwin, slice Qc response off la = Some rwin /\ forallb q_neg rwin = true).
+  { intros off la Hol. exists (firstn la (skipn off response)). split.
+    - apply slice_some_iff. split; [lia|reflexivity].
+    - apply forallb_forall. intros x Hx.
+      assert (Hall := proj1 (forallb_forall q_neg (firstn 13 response)) Hneg). apply Hall.
+      apply In_nth_error in Hx. destruct Hx as [p Hp].
+      assert (Hpl : (p < la)%nat).
+      { assert (Hl : (p < length (firstn la (skipn off response)))%nat) by (apply nth_error_Some; rewrite Hp; discriminate).
+        rewrite firstn_length in Hl. lia. }
+      rewrite nth_error_firstn_ in Hp by assumption. rewrite nth_error_skipn_ in Hp.
+      apply (nth_error_In (firstn 13 response) (off + p)). rewrite nth_error_firstn_ by lia. exact Hp. }
+  change (range_incl 0 1) with [0%nat; 1%nat].
+  change (range_incl 3 12) with [3;4;5;6;7;8;9;10;11;12]%nat.
+  apply isolated_pulse_ls_lemma.
+  - apply isolated_pulse_Q_lemma; try assumption; try lia.
+    destruct (Hw 0%nat 3%nat ltac:(lia)) as [rwin [Hs Hn]]. apply slice_some_iff in Hs. destruct Hs as [_ ->]. exact Hn.
+  - intros off la Ho Hl.
+    assert (Hol : (off + la <= 13 /\ 1 <= la)%nat).
+    { cbn [In] in Ho, Hl. lia. }
+    destruct (Hw off la (proj1 Hol)) as [rwin [Hs Hn]]. exists rwin. split; [exact Hs|]. split; [exact Hn|lia].
+  - intros l. apply q_dec_false. unfold Greedy.sumsq. apply sumsq_Q_ge0. apply Qcle_refl.
+  - apply q_dec_true. reflexivity.
+Qed.
